@@ -8,6 +8,7 @@
   source to the target resp. to the qualified name (`parseString_invalidTarget`,
   `parseString_invalidNamespaceDeclaration`).
 -/
+import XotModel.Lemmas.ParseQName
 import XotModel.Lemmas.SpanSlice
 
 namespace XotModel
@@ -166,11 +167,17 @@ theorem step_err_reserved {b : Builder} {t : Token} {e : ParseErr} {env' : Env}
     (∃ p l v w pfx, t = .attribute p l v w ∧ IsNsDecl p.text l.text pfx ∧
       e = .invalidNamespaceDeclaration (declDisplayName pfx) (Span.fromPrefixName p l) ∧
       ∃ u, parseContentGo true v.start 0 v.text = .ok u ∧ reservedDecl pfx u = true) := by
+  -- the error of `check_qname` is an `UnknownPrefix`
+  have h0 := h
+  clear h
+  rcases Builder.step_err_cases h0 with ⟨_, _, _, _, he, _⟩ | ⟨_, h⟩
+  · rw [he] at hk; cases hk
+  clear h0
   have plain : ∀ {r : Step Builder}, r.Plain → r = .err e env' → False := fun hp hr => by
     rw [hp e env' hr] at hk; cases hk
   cases t with
   | «attribute» p l v w =>
-    simp only [Builder.step] at h
+    simp only [Builder.stepCore] at h
     split at h
     · rename_i hx
       obtain ⟨he, hu⟩ := prefix_err_reserved h hk
@@ -183,13 +190,13 @@ theorem step_err_reserved {b : Builder} {t : Token} {e : ParseErr} {env' : Env}
       · exact (plain (attribute_unreserved _ _ _ _) h).elim
   | text t => exact (plain (text_unreserved _ _) h).elim
   | cdata t sp => exact (plain (cdata_unreserved _ _) h).elim
-  | elementStart p l sp => simp [Builder.step] at h
+  | elementStart p l sp => simp [Builder.stepCore] at h
   | elementEnd e1 sp =>
     cases e1 with
     | «open» => exact (plain (openElement_unreserved _) h).elim
     | close p l => exact (plain (closeElement_unreserved _ _ _ _) h).elim
     | empty =>
-      simp only [Builder.step] at h
+      simp only [Builder.stepCore] at h
       cases hb : b.openElement with
       | ok b1 =>
         rw [hb] at h
@@ -198,23 +205,23 @@ theorem step_err_reserved {b : Builder} {t : Token} {e : ParseErr} {env' : Env}
         rw [hb] at h
         exact (plain (openElement_unreserved _) (hb.trans h)).elim
       | panic => rw [hb] at h; cases h
-  | comment t sp => simp [Builder.step] at h
+  | comment t sp => simp [Builder.stepCore] at h
   | pi tg c w =>
-    simp only [Builder.step] at h
+    simp only [Builder.stepCore] at h
     split at h
     · rename_i hres
       cases h
       exact .inl ⟨tg, c, w, rfl, rfl, hres⟩
     · cases h
   | declaration v e1 s sp =>
-    simp only [Builder.step] at h
+    simp only [Builder.stepCore] at h
     split at h
     · cases h; cases hk
     · cases h
-  | dtdStart sp => simp only [Builder.step] at h; cases h; cases hk
-  | dtdEnd sp => simp only [Builder.step] at h; cases h; cases hk
-  | emptyDtd sp => simp only [Builder.step] at h; cases h; cases hk
-  | entityDecl sp => simp only [Builder.step] at h; cases h; cases hk
+  | dtdStart sp => simp only [Builder.stepCore] at h; cases h; cases hk
+  | dtdEnd sp => simp only [Builder.stepCore] at h; cases h; cases hk
+  | emptyDtd sp => simp only [Builder.stepCore] at h; cases h; cases hk
+  | entityDecl sp => simp only [Builder.stepCore] at h; cases h; cases hk
 
 /-- The token loop: a reserved-name error is the error of one step on one of the tokens. -/
 theorem run_err_reserved {lexErr : Option Nat} {e : ParseErr} {env' : Env} (hk : e.isReservedKind = true) :
